@@ -21,6 +21,11 @@ pub assume_specification<T, P> [std::option::Option::<T>::is_some_and] (o: Optio
             o is Some ==> p.ensures((o->0,), r);
 '''
 
+MEM_REPLACE = r'''
+pub assume_specification<T> [core::mem::replace::<T>] (dest: &mut T, src: T) -> (r: T)
+    ensures *final(dest) == src, r == *old(dest);
+'''
+
 VECDEQUE_FRONT = r'''
 pub assume_specification<T, A> [std::collections::VecDeque::<T, A>::front] (d: &std::collections::VecDeque<T, A>) -> (r: Option<&T>)
     where A: std::alloc::Allocator,
